@@ -144,8 +144,15 @@ public:
 	// Runs f in a forked child so that a fatal outcome (std::terminate, sanitizer abort, signal, stack
 	// overflow, hang) costs a fork instead of a worker restart. Returns "ok:" + f()'s string, or the fatal
 	// kind ("terminate", "asan", "ubsan", "signal11", "hang", "exit<N>"). Use for cases that are likely fatal.
+	// A timeout is confirmed before it is reported: the same closure is run once more with a limit 8x longer
+	// (at least 30 s), so a child that was merely starved of CPU on a loaded machine is not called a hang.
 	std::string isolate(const std::function<std::string()>& f, double timeout_s = 5.0) {
 		if (getenv("BSX_ISOLATE_INLINE")) return "ok:" + f();   // debugging aid: run in-process
+		std::string r = isolateOnce(f, timeout_s);
+		if (r == "hang") r = isolateOnce(f, std::max(timeout_s * 8, 30.0));
+		return r;
+	}
+	std::string isolateOnce(const std::function<std::string()>& f, double timeout_s) {
 		int fd[2]; if (pipe(fd) != 0) return "exit:pipe";
 		fflush(nullptr);
 		pid_t p = fork();
@@ -178,7 +185,13 @@ public:
 	// states, violations... Needed when every execution must start from pristine process state (lazily
 	// initialised statics). Returns "ok" or the fatal kind of the child.
 	std::string isolateExec(const std::function<void(Ctx&)>& f, double timeout_s = 20.0) {
-		int fd[2]; if (pipe(fd) != 0) return "exit:pipe";
+		std::string out; int st = 0;
+		bool hang = isolateExecCollect(f, timeout_s, out, st);
+		if (hang) { out.clear(); hang = isolateExecCollect(f, std::max(timeout_s * 8, 60.0), out, st); }   // confirm a timeout alone, with a longer limit
+		return isolateExecAdopt(out, st, hang);
+	}
+	bool isolateExecCollect(const std::function<void(Ctx&)>& f, double timeout_s, std::string& out, int& st) {
+		int fd[2]; if (pipe(fd) != 0) { st = 0x7f00; return false; }
 		fflush(nullptr);
 		pid_t p = fork();
 		if (p == 0) {
@@ -199,8 +212,8 @@ public:
 			_exit(0);
 		}
 		close(fd[1]);
-		std::string out; char buf[8192];
-		const auto t0 = std::chrono::steady_clock::now(); bool hang = false; int st = 0; bool reaped = false;
+		char buf[8192];
+		const auto t0 = std::chrono::steady_clock::now(); bool hang = false; bool reaped = false;
 		fcntl(fd[0], F_SETFL, O_NONBLOCK);
 		for (;;) {
 			ssize_t k = read(fd[0], buf, sizeof buf);
@@ -212,6 +225,9 @@ public:
 		}
 		close(fd[0]);
 		if (hang) { kill(p, SIGKILL); waitpid(p, &st, 0); } else if (!reaped) waitpid(p, &st, 0);
+		return hang;
+	}
+	std::string isolateExecAdopt(const std::string& out, int st, bool hang) {
 		// adopt: choice records "c<v>,<eff>,<dev>;" first, then observation records
 		size_t i = 0;
 		while (i < out.size() && out[i] == 'c') {
@@ -425,7 +441,30 @@ private:
 	// With iterative bounding, pass b re-explores executions with < b deviations; they were
 	// already committed in an earlier pass, so only executions using exactly b are committed.
 
-	std::vector<int> mResumeArity; double mT0 = 0;
+	std::vector<int> mResumeArity; double mT0 = 0; uint64_t spuriousStalls = 0;
+
+	// Runs the execution `choices` alone in a forked child (stderr to the worker's log); true if it ended
+	// within limit_s (st = its wait status), false if it had to be killed.
+	bool replayAlone(int w, int budget, const std::vector<int>& choices, double limit_s, int& st) {
+		fflush(nullptr);
+		pid_t p = fork();
+		if (p == 0) {
+			std::string errName = mDir + "/err." + std::to_string(w) + ".log";
+			int fd = open(errName.c_str(), O_WRONLY | O_CREAT | O_TRUNC, 0644);
+			if (fd >= 0) { dup2(fd, 2); close(fd); }
+			int nul = open("/dev/null", O_WRONLY); if (nul >= 0) { dup2(nul, 1); close(nul); }
+			std::set_terminate(terminateHandler);
+			Ctx c; c.tier = mTier; c.seed = mSeed; c.budget = budget; c.mSlot = nullptr; c.mCrashed = mCrashTab; c.mPartDepth = mCfg.part_depth; c.mWorkers = 1; c.mWorker = 0; c.mSalt = mix(mSeed + 1);
+			runOne(c, choices);
+			fflush(nullptr); _exit(0);
+		}
+		const double t0 = now();
+		for (;;) {
+			if (waitpid(p, &st, WNOHANG) == p) return true;
+			if (now() - t0 > limit_s) { kill(p, SIGKILL); waitpid(p, &st, 0); return false; }
+			usleep(5000);
+		}
+	}
 
 	int explore(const std::string& out) {
 		mT0 = now();
@@ -441,7 +480,7 @@ private:
 		uint64_t totExec = 0, totCp = 0, totTrans = 0; int maxDepth = 0; uint64_t restarts = 0;
 		for (int budget = 0; budget <= mCfg.max_dev && !deadlineHit; ++budget) {
 			memset(mSlots, 0, sizeof(Slot) * MAXW);
-			std::vector<pid_t> pid(nw, 0); std::vector<uint64_t> lastBeat(nw, 0); std::vector<double> lastChange(nw, now());
+			std::vector<pid_t> pid(nw, 0); std::vector<uint64_t> lastBeat(nw, 0); std::vector<double> lastChange(nw, now()); std::vector<int> stallRetries(nw, 0);
 			auto spawn = [&](int w, std::vector<int> start, bool resume) {
 				fflush(nullptr);
 				pid_t p = fork();
@@ -468,6 +507,18 @@ private:
 						if (hb != lastBeat[w]) { lastBeat[w] = hb; lastChange[w] = now(); continue; }
 						if (now() - lastChange[w] < mCfg.hang_s * 4) continue;
 						kill(pid[w], SIGKILL); waitpid(pid[w], &st, 0); hang = true;
+						// Confirm before reporting: replay the silent execution alone in a fresh process with a
+						// limit 10x longer (at least 60 s). If it completes, the worker was starved (loaded
+						// machine), not hung: it is restarted at this execution and nothing is recorded.
+						int d0 = mSlots[w].depth; std::vector<int> ch(mSlots[w].c, mSlots[w].c + d0);
+						if (d0 > 0 && stallRetries[w] < 25) {
+							int cst = 0; bool again = !replayAlone(w, budget, ch, std::max(60.0, mCfg.hang_s * 40), cst);
+							if (!again && WIFEXITED(cst) && WEXITSTATUS(cst) == 0) {
+								++stallRetries[w]; ++spuriousStalls;
+								mSlots[w].done = 0; spawn(w, ch, false); continue;
+							}
+							if (!again) { hang = false; st = cst; }   // it crashed instead: classify that
+						}
 					}
 					pid[w] = 0; --live;
 					if (!hang && WIFEXITED(st) && WEXITSTATUS(st) == 0 && (mSlots[w].done || mSlots[w].deadline_hit)) continue;
@@ -531,8 +582,8 @@ private:
 		fprintf(o, "{\"property\":\"%s\",\"tier\":\"%s\",\"seed\":%llu,\"executions\":%llu,\"choice_points\":%llu,\"transitions\":%llu,\"max_depth\":%d,",
 			mProp, mTier.c_str(), static_cast<unsigned long long>(mSeed), static_cast<unsigned long long>(totExec), static_cast<unsigned long long>(totCp), static_cast<unsigned long long>(totTrans), maxDepth);
 		fprintf(o, "\"aux\":%zu,", axs.size());
-		fprintf(o, "\"distinct_outcomes\":%zu,\"distinct_nontrivial\":%zu,\"states\":%zu,\"max_dev\":%d,\"completed_dev_bound\":%d,\"deadline_hit\":%s,\"deadline_s\":%g,\"workers\":%d,\"restarts\":%llu,\"wall_s\":%.2f,",
-			outs.size(), nts.size(), sts.size(), mCfg.max_dev, completedBudget, deadlineHit ? "true" : "false", mCfg.deadline_s, nw, static_cast<unsigned long long>(restarts), now() - mT0);
+		fprintf(o, "\"distinct_outcomes\":%zu,\"distinct_nontrivial\":%zu,\"states\":%zu,\"max_dev\":%d,\"completed_dev_bound\":%d,\"deadline_hit\":%s,\"deadline_s\":%g,\"workers\":%d,\"restarts\":%llu,\"spurious_stalls\":%llu,\"wall_s\":%.2f,",
+			outs.size(), nts.size(), sts.size(), mCfg.max_dev, completedBudget, deadlineHit ? "true" : "false", mCfg.deadline_s, nw, static_cast<unsigned long long>(restarts), static_cast<unsigned long long>(spuriousStalls), now() - mT0);
 		fprintf(o, "\"outcomes\":[");
 		for (size_t i = 0; i < outcomeNames.size(); ++i) fprintf(o, "%s\"%s\"", i ? "," : "", outcomeNames[i].c_str());
 		fprintf(o, "],\"samples\":[");
